@@ -142,6 +142,7 @@ def check(ctx):
     amplitude_probe(ctx)
     aliased_params_probe(ctx)
     rejected_steps_probe(ctx)
+    adjoint_only_difficulty_probe(ctx)
 
 
 # ---------------------------------------------------------------- oracle
@@ -394,6 +395,35 @@ def rejected_steps_probe(ctx):
                     ctx.fail("oracle", "ivpgrad:%s:accuracy-after-rejected-steps:%s" % (meth, nm), {"ts": ts.tolist(), "atol": atol, "rtol": rtol}, err,
                              "relative error <= %g" % (3e3 * rtol))
                     break
+
+
+def adjoint_only_difficulty_probe(ctx):
+    """a right-hand side whose parameter derivative is much rougher than the solution itself (a chirp that vanishes at the chosen
+    parameter value): only the ADJOINT integration has to reject steps; the gradient still has the accuracy asked of the backward
+    integrator (round-4 seed C08/10)"""
+    from xitorch.integrate import solve_ivp
+    import numpy as np
+    Wc, T = 6.0, 4.0
+    f = lambda t, y, a, p: -a * y + (p - 1.0) * torch.sin(Wc * t * t)
+    sgrid = np.linspace(0.0, T, 400001)
+    gvals = np.exp(-0.4 * (T - sgrid)) * np.sin(Wc * sgrid * sgrid)
+    hh = sgrid[1] - sgrid[0]
+    ref_p = hh / 3.0 * (gvals[0] + gvals[-1] + 4.0 * gvals[1:-1:2].sum() + 2.0 * gvals[2:-1:2].sum())
+    for meth, rtol in (("rk45", 1e-9), ("rk23", 1e-8)):
+        a = torch.tensor(0.4, dtype=DT, requires_grad=True)
+        p_ = torch.tensor(1.0, dtype=DT, requires_grad=True)
+        y0 = torch.tensor([1.5], dtype=DT, requires_grad=True)
+        with warnings.catch_warnings():
+            warnings.simplefilter("ignore")
+            yt = solve_ivp(f, torch.tensor([0.0, T], dtype=DT), y0, params=(a, p_), method="rk45", rtol=1e-11, atol=1e-13,
+                           bck_options={"method": meth, "rtol": rtol, "atol": rtol * 1e-2})
+            gy0, ga, gp = torch.autograd.grad(yt[-1].sum(), (y0, a, p_))
+        ctx.count(("ivpgrad-adjoint-only-difficulty", meth), nontrivial=True)
+        errs = {"p": abs(float(gp) - ref_p), "a": abs(float(ga) + T * 1.5 * math.exp(-0.4 * T)), "y0": abs(float(gy0) - math.exp(-0.4 * T))}
+        worst = max(errs.values()) / rtol
+        if not worst <= 60.0:
+            ctx.fail("oracle", "ivpgrad:%s:adjoint-only-difficulty" % meth, {"rhs": "-a y + (p - 1) sin(6 t^2) at p = 1", "bck_rtol": rtol},
+                     {"errors": errs, "worst_error_over_rtol": worst}, "gradient errors within 60 x the tolerance of the backward integrator")
 
 
 def aliased_params_probe(ctx):
